@@ -104,7 +104,7 @@ theorem mem_keys_iff (o : RObj) (a : Str) : a ∈ o.keys ↔ hasKeyB o a = true 
   constructor
   · rintro ⟨p, ⟨hp, hpo⟩, rfl⟩
     simp only [accessors, List.mem_cons, List.not_mem_nil, or_false] at hp
-    rcases hp with rfl | rfl | rfl | rfl | rfl | rfl | rfl | rfl | rfl | rfl <;> exact hpo
+    rcases hp with rfl | rfl | rfl | rfl | rfl | rfl | rfl | rfl | rfl | rfl | rfl <;> exact hpo
   · intro h
     split at h
     · next f hf => exact ⟨(a, f), ⟨mem_of_lookup _ _ _ hf, h⟩, rfl⟩
